@@ -202,7 +202,7 @@ func (n *c26Node) query(config bool, e uint64, h *types.Header) string {
 	}
 	// the answer came out of the inner map of one epoch; only a map that holds the answered value and
 	// at least one more entry can have been ranged over with several possible outcomes
-	ambiguous := false
+	ambiguous, big := false, false
 	ans, _ := strconv.Atoi(first)
 	if config {
 		for ep, m := range n.es.nextConfigData {
@@ -212,6 +212,7 @@ func (n *c26Node) query(config bool, e uint64, h *types.Header) string {
 			for _, v := range m {
 				if int(v.C1) == ans {
 					ambiguous = true
+					big = big || len(m) > 8
 				}
 			}
 		}
@@ -219,14 +220,21 @@ func (n *c26Node) query(config bool, e uint64, h *types.Header) string {
 		for _, v := range m {
 			if int(v.Randomness[0])|int(v.Randomness[1])<<8 == ans {
 				ambiguous = true
+				big = big || len(m) > 8
 			}
 		}
 	}
 	if !ambiguous {
 		return first
 	}
+	// a Go map of up to 8 entries is one bucket ranged over from a random slot: every entry comes first
+	// with probability >= 1/8 (>= 1/16 with two buckets); the repeat count makes a miss astronomically rare
+	repeats := c26Repeats
+	if big {
+		repeats = 3 * c26Repeats
+	}
 	seen := map[string]bool{first: true}
-	for i := 0; i < c26Repeats; i++ {
+	for i := 0; i < repeats; i++ {
 		seen[vhCatch(once)] = true
 	}
 	var ids []int
